@@ -22,6 +22,7 @@ for a in args:
     elif a == "wave3": ids += [i for i in every if i.endswith(("-m5", "-m6"))]
     elif a == "wave4": ids += [i for i in every if i.endswith("-m7")]
     elif a == "wave5": ids += [i for i in every if i.endswith("-m8")]
+    elif a == "wave6": ids += [i for i in every if i.endswith("-m9")]
     elif a == "benign": ids += [i for i in every if "-b" in i]
     elif a == "everything": ids += every
     else: ids.append(a)
